@@ -81,6 +81,7 @@ def run(F, R, tier):
     nests = any("Nests" in p and "read" in p for p in paths)
     R.anchor("R16.0", "reachable fn dukenest Nests::read", nests)
 
+    r16_6(F, R)
     R.rule("R16.1", "every Assert terminator (overflow of + - * << >>, negation, division/remainder by zero, array bounds) in a reachable function "
                     "instance is dead or proved not to fire by the interval analysis (or by the wide-counter rule for 64-bit quantities bounded by "
                     "memory/iteration count)")
@@ -753,3 +754,65 @@ def tarjan(g):
         if v not in idx:
             sc(v)
     return out
+
+
+# ------------------------------------------------------------------------------------ R16.6
+IO_RESULT = "core::result::Result<alloc::string::String, std::io::error::Error>"
+
+
+def r16_6(F, R):
+    from lib import hir as H
+    """`BufRead::lines()` yields Err again and again for a reader that keeps failing (a directory opened as a file, a broken pipe): an
+    adaptor or pattern that discards the Err items instead of propagating the first one never reaches the end of the iterator (seed C16-8;
+    the shape clippy calls lines_filter_map_ok).  Decided on the typed HIR: every value of type Result<String, io::Error> that comes out of
+    lines() is propagated (`?`, with_context()?, map into a Result) - never `.ok()`, `.flatten()`, `filter_map`, `is_ok`, `unwrap_or*`,
+    nor an `if let Ok(..)` without an error exit."""
+    rid = "R16.6"
+    R.rule(rid, "an I/O error delivered by BufRead::lines() ends the parse with that error: no site drops Err items of the line iterator "
+                "(flatten / flat_map / filter_map / filter over the lines, .ok() / is_ok() / unwrap_or*() on a line result, `if let Ok(..)` "
+                "without an error exit) - on a reader that fails persistently such a loop never terminates")
+    DROP_ADAPTORS = ("flatten", "flat_map", "filter_map", "filter", "skip_while", "map_while", "take_while", "scan")
+    DROP_METHODS = ("ok", "is_ok", "is_err", "err", "unwrap_or_default", "unwrap_or", "unwrap_or_else", "map_or", "map_or_else", "iter", "into_iter", "and_then")
+    n_sites = 0
+    for cn in ("quill", "dukenest", "duke", "dukebox", "feather_build_rs"):
+        c = F.crate(cn)
+        for b in c.bodies:
+            if not isinstance(b.get("body"), dict):
+                continue
+            sites = [n for n in H.walk(b["body"]) if n.get("k") == "mcall" and n["name"] == "lines"
+                     and "BufRead::lines" in ((n.get("callee") or {}).get("path") or "")]
+            if not sites:
+                continue
+            for site in sites:
+                n_sites += 1
+                bad = []
+                chain = H.parents_of(b["body"], site) or []
+                # adaptors applied to the line iterator before the first element-wise `map`
+                cur = site
+                for p in reversed(chain):
+                    if p.get("k") == "mcall" and H.peel(p["recv"]) is cur:
+                        if p["name"] in ("map", "for_each", "try_for_each", "try_fold", "fold", "collect"):
+                            break
+                        if p["name"] in DROP_ADAPTORS:
+                            bad.append(".%s(..) over the line iterator" % p["name"])
+                        cur = p
+                    elif p.get("k") in ("ref", "paren", "cast") or H.peel(p) is cur:
+                        cur = p
+                    else:
+                        break
+                # uses of a line result that discard the error
+                for n in H.walk(b["body"]):
+                    if n.get("k") == "mcall" and n["name"] in DROP_METHODS:
+                        rt = (H.peel(n["recv"]).get("ty") or "").replace("&", "").replace("mut ", "").strip()
+                        if rt == IO_RESULT:
+                            bad.append("%s on a line result" % H.render(n)[:60])
+                    if n.get("k") == "letexpr" or (n.get("k") == "let" and "els" in n):
+                        init = n.get("init")
+                        it = (H.peel(init).get("ty") or "").replace("&", "").replace("mut ", "").strip() if isinstance(init, dict) else ""
+                        if it == IO_RESULT:
+                            els_ok = n.get("k") == "let" and H.is_err_exit(n["els"])
+                            if not els_ok:
+                                bad.append("pattern `%s` on a line result without an error exit" % H.render_pat(n["pat"])[:40])
+                R.inst(rid, "lines:%s" % b["key"], not bad, sp=site.get("sp"), expect="every Err item of lines() is propagated", got=bad,
+                       detail="BufRead::lines() repeats the error of a persistently failing reader; dropping it loops forever")
+    R.floor(rid, 4)
